@@ -61,7 +61,20 @@ def make_scenario(cfg, path, offs):
         else:
             f = F.MapAccessFile(path, {"k%d" % i: o for i, o in enumerate(offs)})
 
+        g = None
+        if any(isinstance(x, (list, tuple)) for v_ in cfg.reads.values() for x in v_):
+            # a second object of the same class on the same file, opened in the parent as well
+            if cfg.variant == "text":
+                g = F.RandomLineAccessFile(path)
+            elif cfg.variant == "mmap":
+                g = F.MemoryMappedRandomLineAccessFile(path)
+            else:
+                g = F.MapAccessFile(path, {"k%d" % i: o for i, o in enumerate(offs)})
+            g.open()
+
         def read(i):
+            if isinstance(i, (list, tuple)):        # ("B", line): the same read on the second object
+                return (g["k%d" % i[1]].rstrip("\n") if cfg.variant == "map" else g[i[1]])
             if i == "next":
                 return next(itstate["it"])
             if i == "open":
@@ -95,6 +108,8 @@ def make_scenario(cfg, path, offs):
                 want = itstate["pos"]
                 itstate["pos"] += 1
                 return (want, _digest(read(i)))
+            if isinstance(i, (list, tuple)):
+                return (i[1], _digest(read(i)))
             return (i, _digest(read(i)))
 
         def proc_main(idx):
@@ -206,6 +221,9 @@ def plan_for(tier):
         # a child that HAS read (and so owns a handle of its own) forks a grandchild; both then read concurrently
         plan.append((Cfg("%s/child-reads-then-forks" % variant, variant, [1], {0: [2], 1: [3, 4], 2: [0, 1]}, grandchild=(1, 2)),
                      2 if q else 3))
+        # two objects opened in the parent, both used in the child (the second one after the first), the parent on the second
+        plan.append((Cfg("%s/2p-two-objects" % variant, variant, [1], {0: [("B", 4), ("B", 0)], 1: [3, ("B", 2), ("B", 1)]}),
+                     2 if q else None))
         # a file with carriage returns inside its lines (and one CRLF ending)
         plan.append((Cfg("%s/2p-carriage-returns" % variant, variant, [0], {0: [2, 1], 1: [1, 3]}, cr=True), None if not q else 3))
         # parent + 2 children
